@@ -46,6 +46,7 @@ func inList(k string, l []string) bool {
 func c17Run(w *W, c Case) {
 	y := c.A[0]
 	w.Class(fmt.Sprintf("century%02d", y/100))
+	historyTouch(w, y)
 	by := isBoundaryYear(y)
 	tbl := calendar.NewSolarFromYmd(y, 6, 15).GetLunar().GetJieQiTable()
 	termOn := map[int]string{}
